@@ -1,6 +1,7 @@
 import SimbodyProofs.C33_lemmas
 import SimbodyProofs.C33_PE_lemmas
 import SimbodyProofs.C33_WQ_lemmas
+import SimbodyProofs.C33_WQ_live
 /-!
 # C33 — property theorems: parallel executors run every task exactly once, safely
 
@@ -385,6 +386,18 @@ theorem p2d_no_concurrent_shared_index (n : Nat) (hn : 0 < n) (todo : List Nat) 
   · exact hpw _ _ hia hib hlt p hp q hq
   · exact hsym _ _ (hpw _ _ hib hia hgt) p hp q hq
 
+/-- the composition instantiated with the real partition: for every `numProcessors ≥ 2`, grid size, range type and
+every pass `round` of `p2dRounds` (triangle pass or any square pass), under every schedule of the executor, two workers
+that are inside `execute` simultaneously run user invocations that share no row/column index. -/
+theorem p2d_pass_no_concurrent_shared_index (g np : Nat) (hnp : 2 ≤ np) (rt : RangeType)
+    (round : List (List (Nat × Nat))) (hr : round ∈ p2dRounds g (planInit np) rt)
+    (n : Nat) (hn : 0 < n) (todo : List Nat) (sched : List Act) :
+    let s := run (init n todo) sched
+    ∀ a b, a < n → b < n → a ≠ b → (s.wk a).pc = .inExec → (s.wk b).pc = .inExec →
+      ∀ A B, round[(s.wk a).idx]? = some A → round[(s.wk b).idx]? = some B →
+        ∀ p ∈ A, ∀ q ∈ B, NoShareIdx p q :=
+  p2d_no_concurrent_shared_index n hn todo sched round (blocks_conflict_free g np hnp rt round hr)
+
 end PE
 
 /-! ## 3. ParallelWorkQueue: every schedule (one producer) -/
@@ -464,6 +477,19 @@ theorem locked_accesses_exclusive (n q : Nat) (todo : List Op) (sched : List Act
     cases hp : holdsP s.ppc
     · rfl
     · have := hl.m hp; rw [h1] at this; injection this with this; cases this
+
+/-- `no_deadlock` for the work queue (one producer, `n ≥ 1` workers, `queueSize ≥ 1`): in every state reachable by
+any schedule — spurious wake-ups and every `notify_one` choice included — unless the destructor has completed, some
+thread has an enabled NON-spurious step: no lost wake-up between `addTask`/`flush` and the workers, no circular wait.
+(As for ParallelExecutor this is enabledness, not a fairness/termination statement.) -/
+theorem no_deadlock (n q : Nat) (hn : 0 < n) (hq : 0 < q) (todo : List Op) (sched : List Act) :
+    let s := run (init n q todo) sched
+    s.ppc ≠ .final → ∃ t pick, (step s (.step t pick)).isSome = true := by
+  intro s hf
+  have inv : LockInv s ∧ DataInv s ∧ LiveInv s ∧ s.n = n ∧ s.queueSize = q := reach_live hn (reach_run sched Reach.init)
+  clear_value s
+  obtain ⟨hl, hd, hv, _, hqs⟩ := inv
+  exact no_deadlock_aux hl hd hv (by rw [hqs]; exact hq) hf
 
 end WQ
 
